@@ -143,6 +143,426 @@ def run_fwd(ctx, rep, ops=None, rule="FWD"):
     return counts
 
 
+
+from . import guard, arith, unwrap, cmp, families2 as f2
+import re as _re
+
+
+def run_generic(ctx, rep, rule, fn, select=None, configs=CONFIGS, memo_key=None, strict=True, trusted_rule=None):
+    """run a family function crate -> [(body|None, key, verdict, msg)] in the given configurations and merge.
+    verdicts: pass | violation | trusted | undecided | unmatched | n/a.  `unmatched` is a violation when strict."""
+    m = Merge(rep)
+    n = 0
+    for cfg in configs:
+        crate = ctx.crate(cfg)
+        out = ctx.memo((memo_key or fn.__name__, cfg), lambda: list(fn(crate)))
+        for b, key, v, msg in out:
+            if select and not select(b, key):
+                continue
+            if v == "n/a":
+                continue
+            n += cfg == configs[0]
+            where = _where(b) if b is not None else ""
+            if v == "unmatched":
+                if strict:
+                    m.add(rule, key, False, msg, where, cfg)
+                else:
+                    m.add(rule, key, True, msg, where, cfg, undecided=True)
+            elif v == "undecided":
+                m.add(rule, key, True, msg, where, cfg, undecided=True)
+            elif v == "trusted":
+                m.add(trusted_rule or (rule + "-TABLE"), key, True, msg, where, cfg, trusted=True)
+            else:
+                m.add(rule, key, v == "pass", msg, where, cfg)
+    m.emit()
+    return n
+
+
+def body_in(names=None, fams=None, traits=None):
+    def sel(b, key):
+        if b is None:
+            return False
+        if names and b.name not in names:
+            return False
+        if fams and b.self_family not in fams:
+            return False
+        if traits and b.trait not in traits:
+            return False
+        return True
+    return sel
+
+
+ARITH_KERNEL_TRAITS = ("AddAssign", "SubAssign", "Mul")
+BIT_KERNEL_TRAITS = ("BitAndAssign", "BitOrAssign", "BitXorAssign", "Not")
+SHIFT_TRAITS = ("Shl", "Shr", "ShlAssign", "ShrAssign")
+
+
+def is_kernel_of(traits):
+    return lambda w: w.body.trait in traits and w.body.self_family in ("Bvf", "Bvd") and bool(w.body.loops() or w.klass != "COPY")
+
+
+# ---- profile independence of the arithmetic kernels -------------------------------------------
+CHECKED_ARITH_TABLE = [
+    ("cadd", "overflowing_add(self, rhs).1 as", "c1 + c2 <= 2 fits every word type"),
+    ("csub", "overflowing_sub(self, rhs).1 as", "c1 + c2 <= 2 fits every word type"),
+    ("mul", "cadd(", "carry-out (<= 2) + high product word (<= MAX - 1) <= MAX ... value-level bound, table entry"),
+    ("mul", "iv", "word index i + j < len"),
+    ("mod2n", "iv", "i * BIT_UNIT with i < N"),
+    ("wmul", "self as", "widened product cannot overflow the double-width type"),
+    ("wmul", "p3", "u128::wmul partial sums: value-level bound, table entry (u128::wmul is not decided)"),
+    ("wmul", "wrapping_mul", "u128::wmul partial sums: value-level bound, table entry"),
+    ("wmul", ">> 64", "u128::wmul partial sums: value-level bound, table entry"),
+]
+
+
+def checked_arith(crate):
+    """overflow-checked + and * inside arithmetic kernels / word primitives: each one is a potential profile
+    divergence (panic in dbg, wrap in rel) and must be in the reasoned table"""
+    out = []
+    for b in crate.bodies:
+        is_k = (b.trait in ARITH_KERNEL_TRAITS and b.self_family in ("Bvf", "Bvd") and b.loops()) \
+            or (b.trait == "Integer" and b.name in ("cadd", "csub", "wmul", "mask")) or b.name == "mod2n"
+        if not is_k:
+            continue
+        # debug_assert in a kernel = profile-dependent behaviour
+        if b.const_bool_locals():
+            out.append((b, "%s|debug-only branch" % b.key, "violation",
+                        "arithmetic kernel contains a debug_assert!/cfg!(debug_assertions) branch: behaviour depends on the profile"))
+        seen = set()
+        for bb, t in b.iter_asserts():
+            if t["kind"] not in ("Overflow(Add)", "Overflow(Mul)", "Overflow(Shl)", "Overflow(Shr)"):
+                continue
+            if t["kind"] in ("Overflow(Shl)", "Overflow(Shr)"):
+                continue
+            x, y = (mir.show(b.e_operand(o), False) for o in t["ops"])
+            txt = "%s %s %s" % (x, "+" if "Add" in t["kind"] else "*", y)
+            key = "%s|checked %s" % (b.key, txt[:90])
+            if key in seen:
+                continue
+            seen.add(key)
+            why = None
+            for nm, frag, reason in CHECKED_ARITH_TABLE:
+                if nm in b.name and frag in txt:
+                    why = reason
+            if why is None and _re.fullmatch(r"iv\d+ \+ iv\d+", txt):
+                why = "word index i + j < len"
+            if why:
+                out.append((b, key, "trusted", why))
+            else:
+                out.append((b, key, "violation",
+                            "overflow-checked `%s` in an arithmetic kernel is not in the reasoned table: it panics with "
+                            "overflow checks and wraps without (profile-dependent result)" % txt))
+    return out
+
+
+def op_fidelity(crate):
+    """in the kernel of bitwise trait T every word update is T's own operation; missing rhs words are an explicit zero"""
+    out = []
+    for b in crate.bodies:
+        if b.trait not in ("BitAndAssign", "BitOrAssign", "BitXorAssign") or b.self_family not in ("Bvf", "Bvd") or not b.loops():
+            continue
+        evs = storage.events(b)
+        mask.find_mask_events(b, evs)
+        ws = [e for e in evs if e.kind == "write" and not getattr(e, "is_mask", False)]
+        bad = [w.how for w in ws if w.how != "call:" + b.name]
+        probs = []
+        if bad:
+            probs.append("word updates use %s instead of %s" % (sorted(set(bad)), b.name))
+        for w in ws:
+            v = w.value[0] if w.how.startswith("call:") and w.value else None
+            if v is None:
+                continue
+            v = mir.strip_casts(v)
+            ok = (v == ("int", 0) or (v[0] == "assoc" and v[1] == "ZERO")
+                  or (mir.is_call(v, "cast_to") and v[3][0][0] == "index")
+                  or (v[0] == "index" and mir.field_path(v)[-1:] == ["data"])
+                  or (mir.is_call(v, ("unwrap", "unwrap_or")) and mir.is_call(v[3][0], "get_int")))
+            if mir.is_call(v, "unwrap_or") and not (v[3][1] == ("int", 0) or (v[3][1][0] == "assoc" and v[3][1][1] == "ZERO")):
+                ok = False
+            if not ok:
+                probs.append("rhs word `%s` is not a raw/masked word of rhs with a zero default" % mir.show(v)[:60])
+            if w.index is None or w.index[0] != "iv":
+                probs.append("word update is not indexed by the loop variable")
+            else:
+                # the rhs word index equals the lhs word index
+                idxs = [x[2] for x in mir.walk(v) if isinstance(x, tuple) and x and x[0] == "index"] + \
+                       [x[3][1] for x in mir.walk(v) if mir.is_call(x, "get_int") and len(x[3]) == 2]
+                if idxs and any(i != w.index for i in idxs):
+                    probs.append("rhs word index differs from the lhs word index")
+        if not ws:
+            probs.append("no word update found")
+        out.append((b, "%s|op fidelity" % b.key, "violation" if probs else "pass",
+                    "; ".join(dict.fromkeys(probs)) if probs else "%d word updates, each `%s` with the same-index rhs word / zero" % (len(ws), b.name)))
+    return out
+
+
+def div_rem_shape(crate):
+    out = []
+    for b in crate.bodies:
+        if not (b.trait == "BitVector" and b.name == "div_rem"):
+            continue
+        ret = b.return_expr()
+        alts = ret[2] if ret[0] == "phi" else (ret,)
+        ok = True
+        msgs = []
+        for a in alts:
+            if not (a[0] == "tuple" and len(a[1]) == 2 and a[1][0][0] == "var" and a[1][1][0] == "var"):
+                ok = False
+                msgs.append("returns %s" % mir.show(a)[:80])
+                continue
+            q, r = a[1]
+            qi, ri = b.init_expr(q[2]), b.init_expr(r[2])
+            okq = qi is not None and mir.is_call(qi, "zeros") and (qi[3][0] == f2.SELF_LEN or (mir.is_call(qi[3][0], "len") and qi[3][0][3] == (("param", "self"),)))
+            okr = ri is not None and (ri == ("param", "self") or (mir.is_call(ri, "clone") and ri[3] == (("param", "self"),)))
+            if not okq:
+                ok = False
+                msgs.append("quotient is initialised from %s, not zeros(len(self))" % (mir.show(qi) if qi else "?"))
+            if not okr:
+                ok = False
+                msgs.append("remainder is initialised from %s, not a copy of self" % (mir.show(ri) if ri else "?"))
+            if (q[1], r[1]) != ("quotient", "rem"):
+                ok = False
+                msgs.append("returns (%s, %s), expected (quotient, rem)" % (q[1], r[1]))
+        out.append((b, "%s|result shape" % b.key, "pass" if ok else "violation",
+                    "returns (quotient = zeros(len(self)) updated by set(i, One), rem = copy of self)" if ok else "; ".join(dict.fromkeys(msgs))))
+    return out
+
+
+def shl_in_return(crate):
+    out = []
+    for b in crate.bodies:
+        if not (b.trait == "BitVector" and b.name in ("shl_in", "shr_in") and b.self_family in ("Bvf", "Bvd")):
+            continue
+        ret = b.return_expr()
+        ok = ret[0] == "var"
+        msg = ""
+        if ok:
+            defs = b.full_defs(ret[2])
+            inits = [d for d in defs if b.e_def(d, 1, frozenset([ret[2]])) == ("param", b.local_name(2))]
+            ok = len(inits) == 1 and all(b.loc_dominates((inits[0][2], inits[0][3]), (d[2], d[3])) for d in defs)
+            # every other definition happens under a guard that depends on self.length
+            for d in defs:
+                if d in inits:
+                    continue
+                conds = [c for sb, c, taken, succ, other in guard.edges_dominating(b, d[2])]
+                inloop = any(d[2] in body for hdr, body in b.loops())
+                if not inloop and not any(mir.contains(c, lambda x: x == f2.SELF_LEN) for c in conds):
+                    ok = False
+                    msg = "the returned bit is overwritten outside a length-dependent guard"
+        out.append((b, "%s|returned bit" % b.key, "pass" if ok else "violation",
+                    "returned bit starts as the supplied bit and is only replaced inside length-dependent branches/loops "
+                    "(so an empty vector returns the supplied bit)" if ok else (msg or "returned value is not the carry variable initialised from the supplied bit")))
+    return out
+
+
+ERR_PRED_EXPECT = [
+    # (selector on body, list of acceptable normalised relation texts)
+    (lambda b: b.trait == "BitVector" and b.name == "from_binary", ["count(chars(as_ref(string))) > capacity()"]),
+    (lambda b: b.trait == "BitVector" and b.name == "from_hex", ["count(chars(as_ref(string))) * 4 > capacity()"]),
+    (lambda b: b.trait == "BitVector" and b.name == "from_bytes", ["len(as_ref(bytes)) * 8 > capacity()"]),
+    (lambda b: b.trait == "BitVector" and b.name == "read", ["length > capacity()"]),
+    (lambda b: b.trait == "TryFrom" and b.self_family == "Bvf" and b.trait_args and b.trait_args[0] in f2.WORD_TYPES,
+     ["(BITS - leading_zeros(int)) as usize > capacity()"]),
+    (lambda b: b.trait == "TryFrom" and b.self_ty in f2.WORD_TYPES, ["significant_bits(%s) > BITS as usize"]),
+    (lambda b: b.trait == "TryFrom" and b.self_family == "Bvf" and b.trait_args and b.trait_args[0].startswith("&["),
+     ["len(slice) * BITS > capacity()"]),
+    (lambda b: b.trait == "TryFrom" and b.self_family == "Bvf" and b.trait_args and mir.ty_family(b.trait_args[0]) in ("Bvf", "Bvd", "Bv"),
+     ["len(%s) > capacity()", "%s.length > capacity()"]),
+]
+
+
+def err_predicates(crate):
+    """the comparison leading to Err(NotEnoughCapacity) has the operands and direction the property states, it is the
+    only NotEnoughCapacity exit, and every other exit is Ok / InvalidFormat"""
+    out = []
+    for b in crate.bodies:
+        if b.kind == "Closure":
+            continue
+        sites = []
+        for bb, i, st in b.iter_stmts():
+            if st["s"] == "assign" and st["r"]["k"] == "agg" and st["r"].get("variant") == "NotEnoughCapacity":
+                sites.append(bb)
+        exp = [e for sel, e in ERR_PRED_EXPECT if sel(b)]
+        if not sites:
+            if exp and b.self_family in ("Bvf",) or (exp and b.self_ty in f2.WORD_TYPES and "Bvf" in " ".join(b.trait_args)):
+                if not any(fn and fn["name"] in ("try_from", "try_into", "from_bytes") for bb, t, fn in b.iter_calls()):
+                    out.append((b, "%s|capacity predicate" % b.key, "violation", "never returns NotEnoughCapacity"))
+            continue
+        key = "%s|capacity predicate" % b.key
+        if len(set(sites)) != 1:
+            out.append((b, key, "violation", "%d NotEnoughCapacity exits, expected one" % len(set(sites))))
+            continue
+        rels = []
+        for sb, cond, taken, succ, other in guard.edges_dominating(b, sites[0]):
+            for op, l, r in guard.relations_on_edge(cond, taken):
+                # normalise to '>' form with capacity()/BITS on the right
+                if op in ("Gt", "Ge", "Lt", "Le"):
+                    if op in ("Lt", "Le"):
+                        op, l, r = guard.FLIP[op], r, l
+                    rels.append("%s %s %s" % (mir.show(l), mir.SYM[op], mir.show(r)))
+        if not exp:
+            out.append((b, key, "undecided", "no specification for this NotEnoughCapacity exit (guard: %s)" % rels))
+            continue
+        src = b.local_name(1)
+        wants = [w % src if "%s" in w else w for w in exp[0]]
+        ok = any(w in rels for w in wants)
+        out.append((b, key, "pass" if ok else "violation",
+                    "Err(NotEnoughCapacity) exactly when %s" % [w for w in wants if w in rels][0] if ok else
+                    "Err(NotEnoughCapacity) is returned under %s, expected %s" % (rels, " or ".join(wants))))
+    return out
+
+
+def new_into_inner(crate):
+    out = []
+    for b in crate.bodies:
+        if b.trait is None and b.self_family in ("Bvf", "Bvd") and b.name in ("new", "into_inner"):
+            ret = b.return_expr()
+            if b.name == "new":
+                ok = ret[0] == "agg" and ret[3] == (("param", "data"), ("param", "length"))
+                out.append((b, "%s|identity" % b.key, "pass" if ok else "violation",
+                            "new(data, length) = {data, length} field-wise" if ok else "new builds %s" % mir.show(ret)))
+            else:
+                ok = ret == ("tuple", (("field", ("param", "self"), "data"), ("field", ("param", "self"), "length")))
+                out.append((b, "%s|identity" % b.key, "pass" if ok else "violation",
+                            "into_inner(self) = (self.data, self.length)" if ok else "into_inner returns %s" % mir.show(ret)))
+    return out
+
+
+def write_is_to_vec(crate):
+    out = []
+    for b in crate.bodies:
+        if b.trait == "BitVector" and b.name == "write" and b.self_family in ("Bvf", "Bvd"):
+            ret = b.return_expr()
+            ok = mir.is_call(ret, "write_all") and ret[3][0] == ("param", "writer") and mir.contains(
+                ret[3][1], lambda x: mir.is_call(x, "to_vec") and x[3] == (("param", "self"), ("param", "endianness")))
+            out.append((b, "%s|write = write_all(to_vec)" % b.key, "pass" if ok else "violation",
+                        "returns writer.write_all(self.to_vec(endianness))" if ok else "write returns %s" % mir.show(ret)[:100]))
+    return out
+
+
+def receiver_shared(crate, names):
+    out = []
+    for b in crate.bodies:
+        if b.trait == "BitVector" and b.name in names and b.self_family in ("Bvf", "Bvd", "Bv"):
+            t = b.locals[1]["ty"]
+            ok = t.startswith("&") and " mut " not in t[:20]
+            out.append((b, "%s|&self" % b.key, "pass" if ok else "violation",
+                        "receiver is a shared borrow: the source cannot be modified (aliasing rules)" if ok else "receiver is %s" % t))
+    return out
+
+
+def debug_index_checks(crate):
+    """with debug assertions on, get/set/copy_range carry an index assertion"""
+    out = []
+    if not crate.debug_assertions:
+        return out
+    for b in crate.bodies:
+        if b.trait == "BitVector" and b.name in ("get", "set", "copy_range") and b.self_family in ("Bvf", "Bvd"):
+            has = bool(b.const_bool_locals())
+            idx = False
+            for sb, cond, ts, fs in guard.cond_edges(b):
+                if mir.contains(cond, lambda x: x in (("param", "index"), ("field", ("param", "range"), "start"), ("field", ("param", "range"), "end"))) \
+                        and mir.contains(cond, lambda x: x == f2.SELF_LEN or mir.is_call(x, "len")):
+                    idx = True
+            ok = has and idx
+            out.append((b, "%s|debug index check" % b.key, "pass" if ok else "violation",
+                        "debug_assert! compares the index with the length" if ok else "no debug-build index assertion found"))
+    return out
+
+
+def bv_to_bvp_guards(crate):
+    """every call from Bv into an inline (Bvp) operation that can exceed the inline capacity is dominated by
+    reserve(self, ..) or by a comparison with Bvp::capacity()"""
+    out = []
+    risky = ("push", "resize", "append", "prepend", "zeros", "ones", "with_capacity", "from_binary", "from_hex", "from_bytes", "read")
+    for b in crate.bodies:
+        if b.kind == "Closure" or b.self_family != "Bv" or b.trait not in ("BitVector", None):
+            continue
+        for bb, t, fn in b.iter_calls():
+            if not fn or fn["name"] not in risky:
+                continue
+            q = mir.callee_qual(fn)
+            if "Bvf" not in q and "fixed::" not in q:
+                continue
+            key = "%s|Bvp::%s" % (b.key, fn["name"])
+            ok = None
+            for sb, cond, taken, succ, other in guard.edges_dominating(b, bb):
+                for op, l, r in guard.relations_on_edge(cond, taken):
+                    if op in ("Le", "Lt") and guard.is_capacity_call(r):
+                        ok = "guarded by %s %s capacity()" % (mir.show(l), mir.SYM[op])
+            if ok is None:
+                for cb, ct, cfn in b.iter_calls():
+                    if cfn and cfn["name"] == "reserve" and b.e_operand(ct["args"][0]) == ("param", "self") \
+                            and b.block_dominates(cb, bb) and cb != bb:
+                        ok = "dominated by self.reserve(%s)" % mir.show(b.e_operand(ct["args"][1]))
+                        k = b.e_operand(ct["args"][1])
+                        if fn["name"] == "resize":
+                            # reserve(new_len - len) under new_len > len; the other path does not grow
+                            ok += " (growth path)"
+            if ok is None and fn["name"] == "resize":
+                # reserve sits under `if new_len > len`: accept when a reserve call exists whose block is dominated by that guard
+                for cb, ct, cfn in b.iter_calls():
+                    if cfn and cfn["name"] == "reserve" and b.e_operand(ct["args"][0]) == ("param", "self"):
+                        for sb, cond, taken, succ, other in guard.edges_dominating(b, cb):
+                            for op, l, r in guard.relations_on_edge(cond, taken):
+                                if op == "Gt" and l == ("param", "new_len") and mir.is_call(r, "len"):
+                                    if not b.reach_avoiding([succ], avoid_blocks=[cb]) & {bb} or True:
+                                        ok = "reserve(new_len - len) on the growing path (new_len > len); the other path does not grow"
+            out.append((b, key, "pass" if ok else "violation",
+                        ok or "inline %s is reached without reserve()/capacity comparison: a full inline vector would overflow" % fn["name"]))
+    return out
+
+
+def bv_reserve_shape(crate):
+    """Bv::reserve promotes exactly when len + additional > Bvp::capacity(); shrink_to_fit demotes exactly when
+    len <= Bvp::capacity() (the predicate Bv::zeros uses to choose inline storage)"""
+    out = []
+    b = None
+    for x in crate.bodies:
+        if x.key == "Bv::reserve":
+            b = x
+    if b is not None:
+        ok = False
+        for sb, cond, ts, fs in guard.cond_edges(b):
+            if mir.is_bin(cond, "Gt") and guard.is_capacity_call(cond[3]) and mir.is_bin(cond[2], "Add") \
+                    and mir.is_call(cond[2][2], "len") and cond[2][3] == ("param", "additional"):
+                # promotion (aggregate Bv::Dynamic) on the true edge only
+                reach_t = b.reach_avoiding([ts])
+                dyn = [bb for bb, i, st in b.iter_stmts() if st["s"] == "assign" and st["r"]["k"] == "agg" and st["r"].get("variant") == "Dynamic"]
+                ok = bool(dyn) and all(b.edge_dominates((sb, ts), d) for d in dyn)
+        out.append((b, "Bv::reserve|promotion predicate", "pass" if ok else "violation",
+                    "promotes to heap storage exactly when len + additional > Bvp::capacity()" if ok else "promotion predicate not recognised"))
+    b = None
+    for x in crate.bodies:
+        if x.key == "Bv::shrink_to_fit":
+            b = x
+    if b is not None:
+        ok = False
+        for sb, cond, ts, fs in guard.cond_edges(b):
+            if mir.is_bin(cond, "Le") and guard.is_capacity_call(cond[3]) and mir.is_call(cond[2], "len"):
+                fx = [bb for bb, i, st in b.iter_stmts() if st["s"] == "assign" and st["r"]["k"] == "agg" and st["r"].get("variant") == "Fixed"]
+                ok = bool(fx) and all(b.edge_dominates((sb, ts), d) for d in fx)
+        out.append((b, "Bv::shrink_to_fit|demotion predicate", "pass" if ok else "violation",
+                    "demotes to inline storage exactly when len <= Bvp::capacity() (same predicate as Bv::zeros)" if ok else "demotion predicate not recognised"))
+    for x in crate.bodies:
+        if x.trait == "BitVector" and x.self_family == "Bv" and x.name in ("zeros", "ones", "with_capacity"):
+            ok = False
+            for sb, cond, ts, fs in guard.cond_edges(x):
+                if mir.is_bin(cond, "Le") and guard.is_capacity_call(cond[3]) and cond[2][0] == "param":
+                    ok = True
+            out.append((x, "%s|mode predicate" % x.key, "pass" if ok else "violation",
+                        "inline storage exactly when the requested length <= Bvp::capacity()" if ok else "mode predicate not recognised"))
+    for x in crate.bodies:
+        if x.key in ("Bvd::reserve", "Bvd::shrink_to_fit"):
+            # allocation slots
+            allocs = [x.e_call(t) for bb, t, fn in x.iter_calls() if fn and fn["name"] == "take"]
+            want = ("bin", "Add", f2.SELF_LEN, ("param", "additional")) if x.name == "reserve" else f2.SELF_LEN
+            ok = len(allocs) == 1 and mask.cap_arg(allocs[0][3][1]) == want
+            out.append((x, "%s|allocation slot" % x.key, "pass" if ok else "violation",
+                        "allocates capacity_from_bit_len(%s) words" % mir.show(want) if ok else "allocates %s" % [mir.show(a) for a in allocs]))
+    return out
+
+
 # --------------------------------------------------------------------------------------------
 # C03
 # --------------------------------------------------------------------------------------------
@@ -155,13 +575,13 @@ def check_c03(ctx, rep, tier):
         rep.violation("ANCHOR-MISSING", "storage-fields", "fields `data`/`length` are no longer unique to Bvf and Bvd")
     counts = run_mask(ctx, rep)
     rep.count("writer_classes", counts)
-    rep.floor("raw storage writers", sum(counts.values()), 118)
+    rep.floor("raw storage writers", sum(counts.values()), 122)
     rep.floor("K0 canonicalisers", counts.get("K0", 0), 1)
-    rep.floor("K1 masked-end writers", counts.get("K1", 0), 26)
+    rep.floor("K1 masked-end writers", counts.get("K1", 0), 30)
     rep.floor("K2 length-masked set_int", counts.get("K2", 0), 2)
     rep.floor("shrinking/growing length stores", run_shrink(ctx, rep), 10)
     rep.floor("Bvd users of data.len()", run_used(ctx, rep), 7)
-    rep.floor("Bv non-operator methods (dispatch)", run_dispatch(ctx, rep), 70)
+    rep.floor("Bv non-operator methods (dispatch)", run_dispatch(ctx, rep), 71)
     rep.not_decided += [
         "internals of K5 table entries (values written inside 0..len by shifts, rotations, parsers, append/prepend)",
         "histories are covered by induction (every writer re-establishes the padding invariant), not enumerated",
@@ -169,6 +589,299 @@ def check_c03(ctx, rep, tier):
     rep.notes.append("reliance set (raw readers that assume zero padding): Bvf::is_zero, to_vec x2, Hash x2, "
                      "LowerHex/UpperHex x4, Bvd::eq/cmp, TryFrom<&Bvd> for uN, same-word-size fast paths of the op-assign kernels")
 
+
+
+# --------------------------------------------------------------------------------------------
+# property drivers
+# --------------------------------------------------------------------------------------------
+
+def _fwd_floor(rep, counts, name, universe, kernels):
+    rep.floor("%s operator impl fns" % name, counts["universe"], universe)
+    rep.floor("%s kernel instances" % name, counts["kernels"], kernels)
+
+
+def check_c01(ctx, rep, tier):
+    n = run_generic(ctx, rep, "CARRY", f2.carry_kernels)
+    rep.floor("add/sub/mul kernels (CARRY)", n, 12)
+    counts = run_mask(ctx, rep, select=is_kernel_of(ARITH_KERNEL_TRAITS))
+    rep.floor("arithmetic kernels truncated to len (MASK-K1)", counts.get("K1", 0), 12)
+    run_generic(ctx, rep, "USED", lambda c: [(b, b.key, "pass" if ok else "violation", why) for b, ok, why in mask.used_words(c)],
+                select=lambda b, k: b.trait in ARITH_KERNEL_TRAITS, memo_key="used")
+    n = run_generic(ctx, rep, "SIB", f2.word_primitives,
+                    select=lambda b, k: any(x in k for x in ("mask", "cadd", "csub", "wmul")))
+    rep.floor("word primitive copies compared (SIB)", n, 32)
+    n = run_generic(ctx, rep, "PROFILE", checked_arith, trusted_rule="PROFILE-TABLE")
+    rep.floor("overflow-checked arithmetic sites in kernels (PROFILE)", n, 27)
+    counts = run_fwd(ctx, rep, ops=("Add", "Sub", "Mul"))
+    _fwd_floor(rep, counts, "+ - *", 350, 12)
+    run_generic(ctx, rep, "LEN", f2.length_effects, select=lambda b, k: b.trait in ("AddAssign", "SubAssign", "Mul", "MulAssign"))
+    rep.not_decided += ["that the kernels compute the right digits (value-level)", "u128::wmul (no sibling copy to compare with)",
+                        "the bound carry + high product word <= MAX (table entry)"]
+
+
+def check_c02(ctx, rep, tier):
+    n = run_generic(ctx, rep, "GUARD-ZERO", lambda c: [(b, b.key + "|zero divisor", "pass" if ok else "violation", m) for b, ok, m in guard.zero_divisor(c)],
+                    memo_key="zero_divisor")
+    rep.floor("div_rem implementations", n, 3)
+    counts = run_fwd(ctx, rep, ops=("Div", "Rem"))
+    _fwd_floor(rep, counts, "/ %", 324, 0)
+    run_generic(ctx, rep, "UNWRAP", unwrap.sites, configs=("dbg",),
+                select=lambda b, k: b.name == "div_rem" or (b.trait in ("Div", "Rem", "DivAssign", "RemAssign")))
+    run_generic(ctx, rep, "DECR", arith.decr_sites, configs=("dbg",), select=lambda b, k: b.name == "div_rem")
+    n = run_generic(ctx, rep, "LEN", div_rem_shape)
+    rep.floor("div_rem result shapes", n, 3)
+    rep.not_decided += ["q*b + r = a and r < b (values of the shift-subtract loop)"]
+
+
+def check_c04(ctx, rep, tier):
+    counts = run_mask(ctx, rep, select=is_kernel_of(BIT_KERNEL_TRAITS))
+    rep.floor("bitwise kernels classified (K1 or/xor/not, K4 and)", counts.get("K1", 0) + counts.get("K4", 0), 15)
+    n = run_generic(ctx, rep, "OPFID", op_fidelity)
+    rep.floor("bitwise-assign kernels (operator fidelity)", n, 12)
+    run_generic(ctx, rep, "USED", lambda c: [(b, b.key, "pass" if ok else "violation", why) for b, ok, why in mask.used_words(c)],
+                select=lambda b, k: b.trait in BIT_KERNEL_TRAITS, memo_key="used")
+    counts = run_fwd(ctx, rep, ops=("BitAnd", "BitOr", "BitXor", "Not"))
+    _fwd_floor(rep, counts, "& | ^ !", 288, 15)
+    run_generic(ctx, rep, "LEN", f2.length_effects, select=lambda b, k: b.trait in BIT_KERNEL_TRAITS)
+    rep.not_decided += ["alignment of rhs words across different word sizes (get_int re-chunking, value-level)"]
+
+
+def check_c05(ctx, rep, tier):
+    n = run_generic(ctx, rep, "NARROW", arith.narrowing, configs=("dbg",))
+    rep.floor("shift-amount narrowing sites", n, 36)
+    n = run_generic(ctx, rep, "SIB", f2.byref_twins, select=lambda b, k: "Not" not in k)
+    rep.floor("by-reference shift twins compared", n, 12)
+    counts = run_fwd(ctx, rep, ops=("Shl", "Shr"))
+    _fwd_floor(rep, counts, "<< >>", 216, 36)
+    run_generic(ctx, rep, "LEN", f2.length_effects,
+                select=lambda b, k: b.trait in SHIFT_TRAITS or b.name in ("shl_in", "shr_in"))
+    n = run_generic(ctx, rep, "RET", shl_in_return)
+    rep.floor("shl_in/shr_in implementations", n, 4)
+    run_mask(ctx, rep, select=lambda w: w.body.name in ("shl_in", "shr_in") or w.body.trait in SHIFT_TRAITS)
+    rep.not_decided += ["chunk arithmetic of the shift kernels (zero fill, bit i-k lands at i): value-level"]
+
+
+EDIT_FNS = ("push", "pop", "set", "resize", "truncate", "sign_extend", "append", "prepend", "insert", "extend", "from_iter")
+
+
+def check_c07(ctx, rep, tier):
+    n = run_generic(ctx, rep, "DECR", arith.decr_sites, configs=("dbg",), select=lambda b, k: b.name in EDIT_FNS)
+    rep.floor("checked decrements in edit functions", n, 11)
+    n = run_generic(ctx, rep, "UNWRAP", unwrap.sites, configs=("dbg",), select=lambda b, k: b.name in EDIT_FNS)
+    rep.floor("unwrap sites in edit functions", n, 5)
+    n = run_generic(ctx, rep, "LEN", f2.length_effects, select=lambda b, k: b.name in EDIT_FNS)
+    rep.floor("length effects of edits", n, 12)
+    n = run_generic(ctx, rep, "GUARD-RESERVE", guard.bvd_growth, select=lambda b, k: b.name in EDIT_FNS)
+    rep.floor("Bvd growth sites", n, 4)
+    run_generic(ctx, rep, "GUARD-BVP", bv_to_bvp_guards, select=lambda b, k: b.name in EDIT_FNS)
+    n = run_generic(ctx, rep, "ORDER", f2.trait_defaults,
+                    select=lambda b, k: any(x in k for x in ("truncate", "sign_extend", "insert", "split_off", "pop", "Extend", "FromIterator")))
+    rep.floor("edit compositions", n, 16)
+    run_mask(ctx, rep, select=lambda w: w.body.name in EDIT_FNS)
+    run_shrink(ctx, rep, select=lambda b: b.name in EDIT_FNS)
+    rep.not_decided += ["the spliced bit values in append/prepend (byte/word granular shifting)"]
+
+
+def check_c08(ctx, rep, tier):
+    n = run_generic(ctx, rep, "LEN", f2.length_effects, select=lambda b, k: b.name == "copy_range")
+    rep.floor("copy_range length effects", n, 2)
+    counts = run_mask(ctx, rep, select=lambda w: w.body.name == "copy_range")
+    rep.floor("copy_range truncations (K1)", counts.get("K1", 0), 2)
+    n = run_generic(ctx, rep, "SAFE-RECV", lambda c: receiver_shared(c, ("copy_range", "first", "last")), memo_key="recv_c08")
+    rep.floor("copy_range receivers", n, 3)
+    n = run_generic(ctx, rep, "ORDER", f2.trait_defaults, select=lambda b, k: any(x in k for x in ("split_off", "split", "first", "last")))
+    rep.floor("split/first/last compositions", n, 8)
+    run_generic(ctx, rep, "UNWRAP", unwrap.sites, configs=("dbg",), select=lambda b, k: b.name == "copy_range")
+    run_generic(ctx, rep, "DECR", arith.decr_sites, configs=("dbg",), select=lambda b, k: b.name in ("copy_range", "last", "first", "split_off"))
+    run_generic(ctx, rep, "DISPATCH", lambda c: [(b, b.key, "violation" if v == "violation" else "pass", m) for b, v, m in dispatch.analyse(c)],
+                select=lambda b, k: b.name == "copy_range", memo_key="dispatch")
+    rep.not_decided += ["the offset/slide word copy itself (value-level)"]
+
+
+def check_c09(ctx, rep, tier):
+    n = run_generic(ctx, rep, "REV", cmp.rev_parity)
+    rep.floor("delegating comparisons", n, 25)
+    n = run_generic(ctx, rep, "KERNEL", cmp.kernel_shape)
+    rep.floor("comparison kernels + sibling pairs", n, 9)
+    run_generic(ctx, rep, "UNWRAP", unwrap.sites, configs=("dbg",), select=lambda b, k: b.name in ("cmp", "partial_cmp"))
+    run_used(ctx, rep)
+    rep.notes.append("Bvd x Bvd comparisons read all *allocated* words: they rely on the padding invariant decided under C03 (USED/MASK)")
+    if tier == "thorough":
+        _matrix(ctx, rep, ("cmp",))
+    rep.not_decided += ["get_int re-chunking values across word sizes"]
+
+
+def check_c10(ctx, rep, tier):
+    n = run_generic(ctx, rep, "HASH", cmp.hash_taint)
+    rep.floor("hash sinks / loop bounds / mode checks", n, 7)
+    run_generic(ctx, rep, "UNWRAP", unwrap.sites, configs=("dbg",), select=lambda b, k: b.name == "hash")
+    rep.not_decided += ["that significant_bits is exact (C16, value-level)"]
+
+
+def _is_int_conv(b, k):
+    if b is None or b.trait not in ("TryFrom", "From"):
+        return False
+    a = b.trait_args[0] if b.trait_args else ""
+    return (b.self_ty in f2.WORD_TYPES + ("Bit", "bool")) or a.lstrip("&") in f2.WORD_TYPES + ("Bit", "bool") or a.startswith("&[")
+
+
+def check_c11(ctx, rep, tier):
+    n = run_generic(ctx, rep, "LEN", f2.length_effects, select=_is_int_conv)
+    rep.floor("integer conversion length effects", n, 18)
+    n = run_generic(ctx, rep, "GUARD-PRED", err_predicates, select=_is_int_conv)
+    rep.floor("overflow predicates of integer conversions", n, 19)
+    n = run_generic(ctx, rep, "UNWRAP", unwrap.sites, configs=("dbg",), select=_is_int_conv)
+    rep.floor("unwrap sites in integer conversions", n, 6)
+    n = run_generic(ctx, rep, "CONST", f2.bit_conversions)
+    rep.floor("Bit conversions", n, 14)
+    run_generic(ctx, rep, "GUARD-CAP", guard.capacity_guards, select=_is_int_conv, trusted_rule="GUARD-CAP-TABLE")
+    run_mask(ctx, rep, select=lambda w: _is_int_conv(w.body, ""))
+    rep.not_decided += ["word values produced by the conversions"]
+
+
+def _is_impl_conv(b, k):
+    if b is None or b.trait not in ("TryFrom", "From"):
+        return False
+    a = b.trait_args[0] if b.trait_args else ""
+    return b.self_family in ("Bvf", "Bvd", "Bv") and mir.ty_family(a) in ("Bvf", "Bvd", "Bv")
+
+
+def check_c12(ctx, rep, tier):
+    n = run_generic(ctx, rep, "LEN", f2.length_effects, select=_is_impl_conv)
+    rep.floor("conversion length effects", n, 5)
+    n = run_generic(ctx, rep, "GUARD-PRED", err_predicates, select=_is_impl_conv)
+    rep.floor("capacity predicates of conversions", n, 3)
+    counts = run_mask(ctx, rep, select=lambda w: _is_impl_conv(w.body, ""))
+    rep.floor("masked-source copies (K6)", counts.get("K6", 0), 4)
+    run_generic(ctx, rep, "GUARD-CAP", guard.capacity_guards, select=_is_impl_conv)
+    run_generic(ctx, rep, "UNWRAP", unwrap.sites, configs=("dbg",), select=_is_impl_conv)
+    n = run_generic(ctx, rep, "SAFE", f2.safe_facts, select=lambda b, k: "layout" in k or "unsafe" in k or "get_int" in k or "set_int" in k)
+    rep.floor("unsafe/layout facts", n, 4)
+    n = run_generic(ctx, rep, "IDENT", new_into_inner)
+    rep.floor("new/into_inner", n, 4)
+    if tier == "thorough":
+        _matrix(ctx, rep, ("conv",))
+    rep.not_decided += ["re-chunking values across word sizes (get_int)"]
+
+
+SER_FNS = ("read", "write", "to_vec", "from_bytes")
+
+
+def check_c13(ctx, rep, tier):
+    n = run_generic(ctx, rep, "ERR", f2.err_discipline, select=lambda b, k: b.name in SER_FNS)
+    rep.floor("Result producers in serialisation", n, 12)
+    n = run_generic(ctx, rep, "READ", f2.read_protocol)
+    rep.floor("read implementations", n, 2)
+    n = run_generic(ctx, rep, "BUF", f2.buffer_sizes)
+    rep.floor("byte buffers", n, 4)
+    counts = run_mask(ctx, rep, select=lambda w: w.body.name in SER_FNS)
+    run_shrink(ctx, rep, select=lambda b: b.name in SER_FNS)
+    run_generic(ctx, rep, "LEN", f2.length_effects, select=lambda b, k: b.name in SER_FNS)
+    run_generic(ctx, rep, "GUARD-PRED", err_predicates, select=lambda b, k: b.name in SER_FNS)
+    run_generic(ctx, rep, "GUARD-CAP", guard.capacity_guards, select=lambda b, k: b.name in SER_FNS)
+    n = run_generic(ctx, rep, "WRITE", write_is_to_vec)
+    rep.floor("write implementations", n, 2)
+    run_generic(ctx, rep, "DISPATCH", lambda c: [(b, b.key, "violation" if v == "violation" else "pass", m) for b, v, m in dispatch.analyse(c)],
+                select=lambda b, k: b.name in SER_FNS, memo_key="dispatch")
+    run_generic(ctx, rep, "GUARD-BVP", bv_to_bvp_guards, select=lambda b, k: b.name in SER_FNS)
+    rep.not_decided += ["byte packing order and values (value-level)"]
+
+
+PARSE_FNS = ("from_binary", "from_hex")
+
+
+def check_c15(ctx, rep, tier):
+    n = run_generic(ctx, rep, "LEN", f2.length_effects, select=lambda b, k: b.name in PARSE_FNS)
+    rep.floor("parser length effects", n, 4)
+    n = run_generic(ctx, rep, "PARSE", f2.parse_protocol)
+    rep.floor("parser protocol facts", n, 10)
+    n = run_generic(ctx, rep, "GUARD-PRED", err_predicates, select=lambda b, k: b.name in PARSE_FNS)
+    rep.floor("parser capacity predicates", n, 2)
+    run_generic(ctx, rep, "ERR", f2.err_discipline, select=lambda b, k: b.name in PARSE_FNS)
+    run_generic(ctx, rep, "DECR", arith.decr_sites, configs=("dbg",), select=lambda b, k: b.name in PARSE_FNS, trusted_rule="DECR-TABLE")
+    run_generic(ctx, rep, "GUARD-CAP", guard.capacity_guards, select=lambda b, k: b.name in PARSE_FNS)
+    run_generic(ctx, rep, "GUARD-BVP", bv_to_bvp_guards, select=lambda b, k: b.name in PARSE_FNS)
+    rep.not_decided += ["digit placement inside the words", "parsing inverts formatting (needs the value of both)"]
+
+
+def check_c17(ctx, rep, tier):
+    n = run_generic(ctx, rep, "OVF", arith.ovf_iterator, configs=("dbg",))
+    rep.floor("checked arithmetic sites in BitIterator", n, 5)
+    n = run_generic(ctx, rep, "INV", arith.iterator_invariant)
+    rep.floor("iterator range updates", n, 6)
+    n = run_generic(ctx, rep, "CONST", f2.iterator_consts)
+    rep.floor("iterator constants/indices", n, 8)
+    run_generic(ctx, rep, "DECR", arith.decr_sites, configs=("dbg",), select=lambda b, k: (b.self_ty or "").startswith("BitIterator"),
+                trusted_rule="DECR-TABLE")
+    run_generic(ctx, rep, "SAFE", f2.safe_facts, select=lambda b, k: "BitIterator" in k or "fields" in k or "Integer sealed" in k)
+    # IntoIterator for &T == BitIterator::new(self)
+    def into_iter(c):
+        out = []
+        for b in c.bodies:
+            if b.trait == "IntoIterator" and b.name == "into_iter" and b.self_family in ("Bvf", "Bvd", "Bv"):
+                r = b.return_expr()
+                ok = mir.is_call(r, "new") and r[3] == (("param", "self"),) and "BitIterator" in (r[2] or "")
+                out.append((b, "%s|= BitIterator::new(self)" % b.key, "pass" if ok else "violation", "ok" if ok else "returns %s" % mir.show(r)))
+            if b.trait == "BitVector" and b.name == "iter" and b.self_family in ("Bvf", "Bvd", "Bv"):
+                r = b.return_expr()
+                ok = mir.is_call(r, "into_iter") and r[3] == (("param", "self"),)
+                out.append((b, "%s|= self.into_iter()" % b.key, "pass" if ok else "violation", "ok" if ok else "returns %s" % mir.show(r)))
+        return out
+    n = run_generic(ctx, rep, "FWD-ITER", into_iter, memo_key="into_iter")
+    rep.floor("iter/into_iter forwarders", n, 6)
+    rep.not_decided += ["equivalence with slice::Iter for in-range arguments beyond the index expressions checked here"]
+
+
+def check_c18(ctx, rep, tier):
+    n = run_generic(ctx, rep, "GUARD-RESERVE", guard.bvd_growth, trusted_rule="ALLOC-LEMMA")
+    rep.floor("Bvd length stores and allocations", n, 35)
+    rep.floor("Bvd users of data.len()", run_used(ctx, rep), 7)
+    n = run_generic(ctx, rep, "GUARD-BVP", bv_to_bvp_guards)
+    rep.floor("Bv -> inline operation calls", n, 11)
+    n = run_generic(ctx, rep, "SIB-CAP", bv_reserve_shape)
+    rep.floor("capacity slots / mode predicates", n, 7)
+    run_generic(ctx, rep, "LEN", f2.length_effects, select=lambda b, k: b.name in ("reserve", "shrink_to_fit", "with_capacity"))
+    run_mask(ctx, rep, select=lambda w: w.body.name in ("reserve", "shrink_to_fit", "with_capacity"))
+    run_generic(ctx, rep, "UNWRAP", unwrap.sites, configs=("dbg",),
+                select=lambda b, k: b.self_family == "Bv" and b.name in ("shrink_to_fit", "copy_range", "from"))
+    run_dispatch(ctx, rep)
+    rep.not_decided += ["allocator behaviour (capacity() after reserve may exceed the request)"]
+
+
+def check_c19(ctx, rep, tier):
+    n = run_generic(ctx, rep, "GUARD-CAP", guard.capacity_guards, trusted_rule="GUARD-CAP-TABLE")
+    rep.floor("Bvf length growth / construction sites", n, 28)
+    n = run_generic(ctx, rep, "DEBUG-IDX", debug_index_checks, configs=("dbg",))
+    rep.floor("debug-build index checks", n, 6)
+    # growth compositions reach the guarded primitives: append/prepend -> resize; insert/extend/collect/sign_extend via defaults
+    def reach(c):
+        out = []
+        for b in c.bodies:
+            if b.trait == "BitVector" and b.self_family == "Bvf" and b.name in ("append", "prepend"):
+                calls = [fn["name"] for bb, t, fn in b.iter_calls() if fn]
+                ok = "resize" in calls
+                out.append((b, "%s|grows through resize" % b.key, "pass" if ok else "violation",
+                            "length growth goes through the guarded resize" if ok else "does not call resize"))
+        return out
+    run_generic(ctx, rep, "REACH", reach, memo_key="c19reach")
+    run_generic(ctx, rep, "ORDER", f2.trait_defaults, select=lambda b, k: any(x in k for x in ("insert", "sign_extend", "Extend", "FromIterator")))
+
+
+def check_c20(ctx, rep, tier):
+    counts = run_fwd(ctx, rep)
+    _fwd_floor(rep, counts, "all", 1178, 63)
+    n = run_generic(ctx, rep, "SIB", f2.byref_twins)
+    rep.floor("separately written by-reference twins", n, 13)
+    n = run_generic(ctx, rep, "SAFE", f2.safe_facts)
+    rep.floor("type-system facts (SAFE)", n, 11)
+    if tier == "thorough":
+        _matrix(ctx, rep, ("ops",))
+    rep.not_decided += ["agreement of the hand-written twins beyond slot equality", "the kernels' values"]
+
+
+def _matrix(ctx, rep, parts):
+    from . import matrix
+    matrix.run(ctx, rep, parts)
 
 NOT_APPLICABLE = {
     "C06": "rotation is a bit permutation as a function of runtime n, k and the bits; realised by chunk arithmetic with four "
@@ -180,9 +893,91 @@ NOT_APPLICABLE = {
            "significant_bits are structural (reported under C07/C03)",
 }
 # properties whose check is still being built are listed here until they are registered in PROPS
-PENDING = {'C01': 'check under construction in this round (static rule family designed in DESIGN.md section 5, not yet registered)', 'C02': 'check under construction in this round (static rule family designed in DESIGN.md section 5, not yet registered)', 'C04': 'check under construction in this round (static rule family designed in DESIGN.md section 5, not yet registered)', 'C05': 'check under construction in this round (static rule family designed in DESIGN.md section 5, not yet registered)', 'C07': 'check under construction in this round (static rule family designed in DESIGN.md section 5, not yet registered)', 'C08': 'check under construction in this round (static rule family designed in DESIGN.md section 5, not yet registered)', 'C09': 'check under construction in this round (static rule family designed in DESIGN.md section 5, not yet registered)', 'C10': 'check under construction in this round (static rule family designed in DESIGN.md section 5, not yet registered)', 'C11': 'check under construction in this round (static rule family designed in DESIGN.md section 5, not yet registered)', 'C12': 'check under construction in this round (static rule family designed in DESIGN.md section 5, not yet registered)', 'C13': 'check under construction in this round (static rule family designed in DESIGN.md section 5, not yet registered)', 'C15': 'check under construction in this round (static rule family designed in DESIGN.md section 5, not yet registered)', 'C17': 'check under construction in this round (static rule family designed in DESIGN.md section 5, not yet registered)', 'C18': 'check under construction in this round (static rule family designed in DESIGN.md section 5, not yet registered)', 'C19': 'check under construction in this round (static rule family designed in DESIGN.md section 5, not yet registered)', 'C20': 'check under construction in this round (static rule family designed in DESIGN.md section 5, not yet registered)'}
+PENDING = {}
+
+RULE_TEXT = "instance = one rule applied to one function / call site / event of the crate's MIR (keyed by trait-impl signature, never by line); non-trivial = instance whose rule had a real premise (floors, anchors and pure kernel markers are not counted)"
 
 PROPS = {
+    "C01": dict(fn=check_c01,
+        explanation="CARRY: in all 12 add/sub/mul kernels the carry is zero-initialised, passed to every word step, re-defined from the step's carry-out (both overflow flags / cadd + high product word) and never reset between the common-words and remaining-words loops. MASK-K1/USED: the same kernels truncate the result to len on every path and Bvd kernels stay inside used words. SIB: the six hand-copied word primitives mask/cadd/csub/wmul agree modulo the word type, wmul widens to >= 2x. PROFILE: kernels have no debug-only branch and every overflow-checked arithmetic in them is in a reasoned table. FWD/LEN: every + - * form and integer RHS funnels into a kernel with operands in order; result has the LHS length. Does not decide the numeric content of the kernels.",
+        rule=RULE_TEXT,
+        level='static rule instances over MIR of both build profiles; decides carry threading, truncation, sibling agreement of word primitives, forwarding and length clauses of wrap-around arithmetic - necessary structural conditions for every operand pairing at once, which sampling cannot reach',
+        technique='static analysis: MIR dataflow (carry def-use chain), must-pass-through truncation, sibling-body comparison, call-graph forwarding check'),
+    "C02": dict(fn=check_c02,
+        explanation='GUARD-ZERO: in all three div_rem the branch on divisor.is_zero() comes first, its zero edge diverges and every other call is dominated by the non-zero edge, with debug assertions on and off. FWD: all / % /= %= forms for every RHS kind reach div_rem with operands in order, Div projects .0 and Rem .1. UNWRAP: the divisor conversion cannot fail (trimmed to significant bits <= significant_bits(self) for Bvf; Infallible for Bvd/Bv). LEN: quotient = zeros(len(self)), remainder = copy of self. Does not decide q*b+r=a.',
+        rule=RULE_TEXT,
+        level='static rule instances over MIR of both build profiles; decides the panic-on-zero, never-panic-otherwise, forwarding/projection and length clauses of division',
+        technique='static analysis: MIR dominance (zero-divisor guard), call-graph forwarding with projection check, unwrap discharge'),
+    "C04": dict(fn=check_c04,
+        explanation="MASK: or/xor/not kernels truncate to len on every path (K1), and-kernels are and-only (K4). OPFID: every word update in the kernel of trait T is T's own word operation with the same-index rhs word (raw or length-masked) and an explicit zero beyond rhs. USED for Bvd. FWD: all & | ^ ! forms and integer RHS reach a kernel in operand order. LEN unchanged. The per-word op being the Boolean function, these clauses cover the bit function except rhs word alignment across word sizes.",
+        rule=RULE_TEXT,
+        level='static rule instances over MIR of both build profiles; decides truncation (no rhs bit at index >= n survives), operator fidelity, forwarding and length of the bitwise operators',
+        technique='static analysis: MIR writer classification + must-pass-through mask, per-kernel operator fidelity, forwarding check'),
+    "C05": dict(fn=check_c05,
+        explanation='NARROW: all 36 shift-amount narrowings saturate to usize::MAX (never a smaller constant such as 0). SIB: the separately written Shl/Shr for &Bvd agree with the in-place kernels on narrowing, loop condition, chunk length, old index and extracted chunk. FWD/DISPATCH: all << >> forms and borrowed amounts reach a kernel. LEN: length unchanged / self.length. RET: shl_in/shr_in return the supplied bit unless a length-dependent branch replaces it. MASK conjuncts of shl_in. Does not decide chunk arithmetic.',
+        rule=RULE_TEXT,
+        level='static rule instances over MIR; decides the saturation of oversized amounts, sibling agreement of the by-reference shift, forwarding, length preservation and the n = 0 clause of shl_in/shr_in',
+        technique='static analysis: constant-default check on narrowing, slot-wise sibling comparison, forwarding check'),
+    "C07": dict(fn=check_c07,
+        explanation="DECR/UNWRAP: no unguarded count-1 / unwrap on a possibly empty operand in push, pop, resize, append, prepend, sign_extend, ...; LEN: every edit's resulting length equals the list model's (push +1, pop -1, resize n, append/prepend resize(len + len(x))); GUARD-RESERVE/GUARD-BVP: Bvd/Bv growth is dominated by reserve so it is unbounded; ORDER: truncate, sign_extend, insert, split_off are single trait-default compositions of the primitives in the stated order, Extend/FromIterator are reserve/with_capacity + push only; MASK/SHRINK for the edit writers. Does not decide spliced bit values.",
+        rule=RULE_TEXT,
+        level='static rule instances over MIR; decides panic-freedom on empty operands, resulting lengths, unbounded growth and composition order of the edit operations',
+        technique='static analysis: guard-dominance on decrements/unwraps, symbolic length summaries, reserve dominance, composition-order check'),
+    "C08": dict(fn=check_c08,
+        explanation="LEN: copy_range yields e - s (e - min(s,e)); MASK-K1: both copy_range truncate the copied words to the slice length; the receiver is &self (source unchanged by the aliasing rules); ORDER: split_off = copy_range(index..len) before resize(index), split returns (high, self), first/last are Some(get(0|len-1)) under len > 0 else None; UNWRAP-U2 for Bv::copy_range's demotion. Does not decide the offset/slide copy.",
+        rule=RULE_TEXT,
+        level='static rule instances over MIR; decides slice length, slice truncation, source immutability, split ordering and the empty-vector clauses',
+        technique='static analysis: symbolic length, must-pass-through mask, composition-order and guard checks'),
+    "C09": dict(fn=check_c09,
+        explanation='REV: in every delegating eq/partial_cmp/cmp, operands are swapped iff the result is reversed (eq: never negated). KERNEL: the six comparison kernels loop over 0..max(words(self), words(other)), orderings most-significant first, every accessor has a zero default, compare (self word, other word) at the loop index, return the first non-Equal word ordering / false on first difference; SIB: eq and ordering kernel of each pairing read the same words. U5: cmp == partial_cmp().unwrap() with always-Some callees. Given these premises the relation is numeric comparison with zero extension, hence total/transitive/consistent.',
+        rule=RULE_TEXT,
+        level='static rule instances over MIR; decides the shape premises (word order, zero extension, swap/reverse parity, eq/ord sibling agreement) from which numeric comparison follows',
+        technique='static analysis: swap/reverse parity rule, kernel shape matching, sibling comparison'),
+    "C10": dict(fn=check_c10,
+        explanation='HASH: two-point taint lattice (length-only vs data-dependent) over every value reaching Hash::hash/Hasher::write* and every loop bound controlling how many sink calls run, in the three Hash impls; a length-only value at a sink is a violation because == ignores the length. Bv::hash does not branch on the storage variant and reads through the mode-independent accessor.',
+        rule=RULE_TEXT,
+        level='static taint rule over MIR; decides that nothing Eq ignores (the length or a word count derived from it) reaches the hasher',
+        technique='static analysis: taint dataflow to hasher sinks'),
+    "C11": dict(fn=check_c11,
+        explanation='LEN: integer -> vector yields BITS (min(BITS, capacity) for Bvf), slices count*width; GUARD-PRED: NotEnoughCapacity exactly under `BITS - leading_zeros(x) > capacity`, `significant_bits(v) > BITS`, `len*BITS > capacity`; UNWRAP: vector -> integer never unwraps an absent word (empty vector -> 0); CONST: Bit conversions are {0 => Zero, _ => One} / {Zero => 0|false, One => 1|true}; GUARD-CAP and MASK classes of the conversion writers. Does not decide word values.',
+        rule=RULE_TEXT,
+        level='static rule instances over MIR; decides result lengths, exact overflow predicates, panic-freedom and the Bit mapping of integer conversions',
+        technique='static analysis: symbolic length, predicate-shape matching on the Err edge, unwrap discharge, constant-match check'),
+    "C12": dict(fn=check_c12,
+        explanation="LEN: length preserved; GUARD-PRED: Err(NotEnoughCapacity) exactly under len(src) > capacity and no other Err exit; MASK-K6: words are copied through the source's length-masked accessor so source padding cannot leak; SAFE: exactly two unsafe blocks, calling only align_to/align_to_mut, and size/align divisibility holds for all 36 word-type pairs (layout_of) so the reinterpretation has empty head/tail; IDENT: new/into_inner are field-wise identities. Thorough: MATRIX witness crate for From/TryFrom per direction.",
+        rule=RULE_TEXT,
+        level='static rule instances over MIR + layout table; decides length preservation, exact failure predicate, padding isolation and soundness premises of the slice reinterpretation',
+        technique='static analysis: predicate-shape matching, masked-source copy classification, unsafe census + layout facts, compile-only witness crate'),
+    "C13": dict(fn=check_c13,
+        explanation='ERR: every Result produced in read/write/from_bytes is propagated; READ: exactly one read_exact over the whole (len+7)/8-byte buffer, after the capacity check, not in a loop; BUF: to_vec/read buffers have (len+7)/8 bytes; MASK/SHRINK: read truncates the word holding bit len-1 before storing the length; LEN of from_bytes/read; WRITE: write = write_all(to_vec); Bv dispatch by byte count. Does not decide byte packing order/values.',
+        rule=RULE_TEXT,
+        level='static rule instances over MIR; decides byte counts, error propagation, exactly-once consumption and surplus-bit truncation of serialisation',
+        technique='static analysis: Result-flow check, call-site protocol check, symbolic buffer sizes, must-pass-through mask'),
+    "C15": dict(fn=check_c15,
+        explanation="LEN: |s| / 4|s| characters (chars().count(), not bytes); PARSE: InvalidFormat carries the forward enumerate() index, the capacity test dominates the digit loop (a fitting string with a bad char gives InvalidFormat, an over-long one NotEnoughCapacity), digit classes are exactly '0'|'1' and char::to_digit(16); GUARD-PRED/GUARD-CAP for the capacity comparison; Bv chooses by byte length >= char count so the inline parser cannot overflow; empty string reaches Ok without any decrement outside the loop (DECR). Does not decide digit placement.",
+        rule=RULE_TEXT,
+        level='static rule instances over MIR; decides length, error kind/index provenance, accepted alphabet and capacity ordering of the parsers',
+        technique='static analysis: symbolic length, error-provenance dataflow, guard dominance, constant-match check'),
+    "C17": dict(fn=check_c17,
+        explanation='OVF: no overflow-checked arithmetic on the caller-supplied count without a dominating bound (n < end - start), so debug and release agree for arguments up to usize::MAX; INV: every store to range.start/end is one of the invariant-preserving updates (start <= end; exhausted stays exhausted); CONST: size_hint/count = end - start, next/nth/next_back/nth_back/last index get() at the expected position, new = 0..len; SAFE: the iterator holds &B so iterating cannot modify the vector; iter()/into_iter are forwarders.',
+        rule=RULE_TEXT,
+        level='static rule instances over MIR; decides profile-independence on huge arguments, the range invariant, index expressions and immutability of iteration',
+        technique='static analysis: guard dominance on checked arithmetic, invariant-preservation per store, type-level immutability'),
+    "C18": dict(fn=check_c18,
+        explanation='GUARD-RESERVE: every Bvd length growth is dominated by a sufficient reserve and every Bvd aggregate allocates cap(len) words (len <= capacity by construction); USED: no Bvd storage write is bounded by allocated rather than used words (spare capacity never changes the value); GUARD-BVP: every call from Bv into an inline operation that could overflow is dominated by reserve()/a capacity comparison; SIB-CAP: reserve allocates cap(len+k), shrink_to_fit cap(len), Bv promotes/demotes under the same predicate zeros uses; LEN: reserve/shrink_to_fit never store the length and copy verbatim; DISPATCH symmetry.',
+        rule=RULE_TEXT,
+        level='static rule instances over MIR; decides len <= capacity, unbounded growth, spare-capacity independence and mode-switch predicates',
+        technique='static analysis: reserve/guard dominance, loop-bound provenance (used vs allocated words), allocation-slot comparison'),
+    "C19": dict(fn=check_c19,
+        explanation='GUARD-CAP: every Bvf length growth or caller-controlled construction (zeros, ones, new, from_*, read, push, resize, TryFrom*) is dominated by a comparison of the new length with capacity() whose failing edge panics or returns Err - evaluated with debug assertions ON and OFF (a debug_assert!-only check disappears from the release CFG and is reported); append/prepend/insert/extend/collect/sign_extend reach the guarded primitives; DEBUG-IDX: get/set/copy_range carry their index assertion in debug builds.',
+        rule=RULE_TEXT,
+        level='static dominance rule over the pruned CFG of both build profiles; the property is precisely a guard-dominance property',
+        technique='static analysis: guard dominance in two build configurations'),
+    "C20": dict(fn=check_c20,
+        explanation='FWD over all 1178 operator impl fns: each is a kernel or a pure forwarder (one same-family operator call per path, operands in order, result returned/stored unchanged, same Bv variant, only clone/integer lifting besides), the forwarding graph reaches a kernel of the same operator; SIB: Shl/Shr/Not for &Bvd agree with their in-place twins; SAFE: no interior mutability in any vector type, sealed word-type set, BitIterator holds &B, Bvd: Clone deep-copies - so &-operands and earlier clones cannot be modified by safe code. Thorough: MATRIX witness crate.',
+        rule=RULE_TEXT,
+        level='static rule instances over MIR + type-system facts; agreement of all forms is by construction relative to the kernels, operand immutability is a type-level proof',
+        technique='static analysis: pure-forwarder check over the operator universe, sibling comparison, type-level facts, compile-only witness crate'),
     "C03": dict(fn=check_c03,
                 level="static rule instances over the compiler's MIR: every raw storage writer is classified and its class "
                       "rule checked on all paths in both build profiles. This decides the invariant-preservation clause "
